@@ -57,13 +57,16 @@ static inline void ref_norm(Tri t, int n, int& f, int& cnt, int& s) {
     else { if (b < 0) b += n + 1; if (a < 0) a += n + 1; }
     f = a; cnt = 0; for (int x = a; s > 0 ? x < b : x > b; x += s) ++cnt;
 }
-struct RefSel { std::vector<int> f, cnt, s; long total = 1;
+struct RefSel { std::vector<int> f, cnt, s; long total = 1; long diagN = -1;
+    // the main diagonal of an N x N parent: element i at i*(N+1)
+    static RefSel diagonal(int n) { std::vector<Tri> e1; std::vector<int> e2; RefSel r(e1, e2); r.total = n; r.diagN = n; return r; }
     RefSel(const std::vector<Tri>& r, const std::vector<int>& dims) {
         f.resize(r.size()); cnt.resize(r.size()); s.resize(r.size());
         for (size_t k = 0; k < r.size(); ++k) { ref_norm(r[k], dims[k], f[k], cnt[k], s[k]); total *= cnt[k]; }
     }
     // position in the parent of the logical flat (row-major) index jf
     long pos(long jf, const std::vector<int>& dims) const {
+        if (diagN >= 0) return jf * (diagN + 1);
         long p = 0, rem = jf; std::vector<long> j(f.size());
         for (int k = (int)f.size() - 1; k >= 0; --k) { j[k] = rem % cnt[k]; rem /= cnt[k]; }
         for (size_t k = 0; k < f.size(); ++k) p = p * dims[k] + (f[k] + j[k] * s[k]);
@@ -96,12 +99,16 @@ template<size_t E0, size_t... E> struct prod_of<E0,E...> { static constexpr size
 // how the destination view is made: from the run-time triples of the script (dynamic view classes) ...
 struct DynMaker {
     static const char* cls() { return "dyn"; }
+    static bool is_diag() { return false; }
+    template<typename V> static void noalias(V& v) { v.noalias(); }
     template<typename TT, size_t R> static auto make(TT& A, const std::vector<Tri>& r, std::integral_constant<size_t,R> rk)
         -> decltype(mkview(A, r, rk)) { return mkview(A, r, rk); }
 };
 // ... or from compile-time fseq<F,L,S> (fixed view classes; the script must carry the same triples)
 template<typename... FS> struct FixMaker {
     static const char* cls() { return "fix"; }
+    static bool is_diag() { return false; }
+    template<typename V> static void noalias(V& v) { v.noalias(); }
     template<typename TT, size_t R> static auto make(TT& A, const std::vector<Tri>& r, std::integral_constant<size_t,R>)
         -> decltype(A(FS{}...)) {
         const int want[] = {FS::_first..., FS::_last..., FS::_step...};
@@ -111,6 +118,15 @@ template<typename... FS> struct FixMaker {
     }
 };
 
+// ... or the writable diagonal view diag(A) of a square matrix (the script's destination ranges are ignored)
+struct DiagMaker {
+    static const char* cls() { return "diag"; }
+    static bool is_diag() { return true; }
+    // TensorDiagViewExpr::noalias() is declared to return TensorViewExpr<…,2>& and does not compile when called
+    template<typename V> static void noalias(V&) {}
+    template<typename TT, size_t R> static auto make(TT& A, const std::vector<Tri>&, std::integral_constant<size_t,R>)
+        -> decltype(Fastor::diag(A)) { return Fastor::diag(A); }
+};
 } // namespace vw
 #define VW_UNPACK(...) __VA_ARGS__
 using Fastor::fseq;
